@@ -277,7 +277,17 @@ func init() {
 	})
 }
 
+// runC05: most cases run alone; some run as concurrent sessions of the same
+// case shape in one process (package-level state in the code under test).
 func runC05(cs *vrt.Case) {
+	if cs.Idx%10 == 9 {
+		cs.Twins(2, func(sub *vrt.Case, _ *vrt.Rng) { runC05One(sub) })
+		return
+	}
+	runC05One(cs)
+}
+
+func runC05One(cs *vrt.Case) {
 	r := cs.Rng
 	var src string
 	var gIn, eIn []string
